@@ -37,6 +37,7 @@ PROBES = [
     ("universeFixed", "universe", "package w\n\nvar F func(string int, b string) int\n\nvar W = deriveCurry(F)\n"),
     ("resultsFixed", "resultname", "package w\n\nvar F func(a int, b string) (f int)\n\nvar W = deriveCurry(F)\n"),
     ("resultOuterFixed", "resultparam", "package w\n\nvar F func(a int) func(b string) (a int)\n\nvar W = deriveUncurry(F)\n"),
+    ("qualFixed", "F102", "package w\n\nimport \"unsafe\"\n\nvar F func(unsafe int, p unsafe.Pointer) int\n\nvar W = deriveCurry(F)\n"),
     ("zeroFixed", "F5", "package w\n\ntype NI int\ntype S struct{ A int }\n\n"
      "func F0(a int) (NI, error) { return 0, nil }\n"
      "func F1(a NI) (S, [2]int, NI, error) { return S{}, [2]int{}, 0, nil }\n\nvar W = deriveCompose(F0, F1)\n"),
@@ -63,7 +64,7 @@ PROBE_MODE = {"errTypeFixed": "refuse-or-build", "errRecvFixed": "refuse", "type
 # reproduced on the unchanged tree, reported to the coordinator, not yet listed in known_findings.json nor repaired:
 # printed as KNOWN-FINDING lines marked PENDING (exit 0). As soon as an entry with the witness_class exists (known or
 # fixed) the normal rules apply again.
-PENDING = {"passthrough", "resultparam", "tupleassign"}
+PENDING = set()  # nothing parked at the moment (passthrough = F106, resultparam = F105 repaired; tupleassign = F107 known)
 
 # informational probes (not model variants): defects outside the statements of C15/C16 that live in the same plugins
 INFO_PROBES = [
@@ -73,8 +74,8 @@ INFO_PROBES = [
 
 # reason reported by the model for a wrapper that does not compile -> finding id
 WHY_FINDING = {"unnamed": "F6", "shadow": "F6", "dup": "F6b", "void": "F25", "zero": "F5", "emptylhs": "F5",
-               "errtype": "errtype", "errrecv": "errrecv", "typednil": "typednil", "locals": "locals", "resultname": "resultname",
-               "passthrough": "passthrough", "resultparam": "resultparam", "tupleassign": "tupleassign"}
+               "errtype": "F50", "errrecv": "F51", "typednil": "F52", "locals": "F63", "resultname": "F76",
+               "passthrough": "F106", "resultparam": "F105", "tupleassign": "F107"}
 WHY_TEXT = {
     "unnamed": "unnamed parameters: the wrapper body is printed as `f(, )` and does not compile",
     "shadow": "a parameter named like the generator's own binder (`f`, `err`) captures it: the wrapper does not compile",
